@@ -11,6 +11,6 @@ CONSTANTS
   RunModes = {"any","idle","timer"}
   GuardNilCancel = @@GUARD@@
 SPECIFICATION Spec
-INVARIANTS TypeOK ChainedHistory SwitchNeverFails FnOrder RunOnlyAfterStart StopFnIffStarted CtxCancelledBeforeStopFn StopFnGetsRunError ContextReleased WaitersExact NoDoubleClose FirstErrorWins ListenerOrder NotifierNeverBlocks @@NONIL@@ 
+INVARIANTS TypeOK ChainedHistory SwitchNeverFails FnOrder RunOnlyAfterStart StopFnIffStarted CtxCancelledBeforeStopFn StopFnGetsRunError ContextReleased ContextOnceStarted WaitersExact NoDoubleClose FirstErrorWins ListenerOrder NotifierNeverBlocks @@NONIL@@ 
 PROPERTIES LegalTransitions EventuallyTerminal StopLeadsToTerminal ListenersDrain
 CHECK_DEADLOCK FALSE
